@@ -52,6 +52,8 @@ let () =
           | [Atom "d"; a; b] -> M.GDep (nat_ a, nat_ b)
           | [Atom "ds"; a; l] -> M.GDeps (nat_ a, list_ nat_ l)
           | [Atom "s"; l] -> M.GSort (list_ nat_ l)
+          | [Atom "rt"; a; e] -> M.GNote (nat_ a, (match e with Atom "true" -> true | _ -> false))
+          | [Atom "td"; a] -> M.GNote (nat_ a, false)
           | _ -> failwith "c20-ghist: bad op" in
         let ops = List.map op (list ops) in
         let outs = list_ (list_ nat_) outs in
